@@ -239,3 +239,34 @@ def schema_scenarios(seed, n):
             sc["faults"] = [[rnd.randrange(8, 200), rnd.choice(NONFATAL)] for _ in range(3)]
         out.append(sc)
     return out
+
+
+def mclmc_scenarios(seed, n):
+    rnd = random.Random(seed)
+    out = []
+    for i in range(n):
+        preset = MCLMC_PRESETS[i % 3]
+        dim = rnd.choice([2, 3, 5, 8])
+        dens = rnd.choice([DENS[0], DENS[1], DENS[2], DENS[3], DENS[8], DENS[5]])
+        nt = rnd.choice([0, 4, 10, 20, 33])
+        st = {"num_tune": nt, "num_draws": rnd.choice([3, 8]), "step_size": rnd.choice([0.25, 0.5, 0.3, 1.0]),
+              "momentum_decoherence_length": rnd.choice([0.5, 1.0, 2.0, 3.0]),
+              "subsample_frequency": rnd.choice([1.0, 1.0, 0.5, 0.0, 0.3]),
+              "dynamic_step_size": rnd.random() < 0.6,
+              "trajectory_kind": rnd.choice(["Microcanonical", "Euclidean", "EuclideanEarlyThenMicrocanonical",
+                                             "EuclideanEarlyThenMicrocanonical"]),
+              "trajectory_switch_fraction": rnd.choice([0.3, 0.5, 0.0, 1.0, 0.25]),
+              "max_energy_error": rnd.choice([1000.0, 1000.0, 1.0, 0.05]),
+              "seed": rnd.randrange(1 << 30)}
+        if preset == "flow_mclmc":
+            st["adapt_options"] = {"step_size_settings": {"jitter": rnd.choice([None, 0.1]),
+                                                          "adapt_options": {"method": {"Fixed": st["step_size"]}}}}
+        else:
+            st["adapt_options"] = {"step_size_settings": {"jitter": rnd.choice([None, 0.1, 0.0])},
+                                   "early_mass_matrix_switch_freq": 3, "mass_matrix_switch_freq": 5}
+        sc = {"preset": preset, "dim": dim, "density": dens, "settings": st, "seed": rnd.randrange(1 << 30),
+              "chain": rnd.randrange(3), "init": [rnd.uniform(-1, 1) for _ in range(dim)]}
+        if rnd.random() < 0.5:
+            sc["faults"] = [[rnd.randrange(6, 250), rnd.choice(NONFATAL)] for _ in range(rnd.choice([1, 3, 8]))]
+        out.append(sc)
+    return out
